@@ -59,3 +59,43 @@ void h_escape(void) { ND_ARR(char, chars, NLEN); char* name; StringBuilder sb; u
         OBL(g_f[i].kind != F_HEX || g_f[i].v < 256, "escaping: an escaped byte is printed as exactly two hexadecimal digits");
     }
     CANARY("escape"); }
+
+/* ---- injectivity of the identifier mangling: two different names must not become the same C identifier (else two imports share one
+ * host symbol, or two exports one wrapper).  Names are rendered from the string-side events (the FILE side agrees: h_escape). ---- */
+#define TXT_MAX 16
+typedef struct Txt { char c[TXT_MAX]; int n; int bad; } Txt;
+static void txt_put(Txt* t, int ch) { if (t->n < TXT_MAX) t->c[t->n++] = (char)ch; else t->bad = 1; }
+static void txt_events(Txt* t, int from) { int i;
+    for (i = from; i < SB_MAX; i++) if (i < g_sb_n) {
+        if (g_sb[i].kind == SB_CHR) txt_put(t, (int)g_sb[i].bits);
+        else if (g_sb[i].kind == SB_STR && is_uu(g_sb[i].str, g_sb[i].len)) { txt_put(t, '_'); txt_put(t, '_'); }
+        else if (g_sb[i].kind == SB_CHARHEX) { txt_put(t, "0123456789ABCDEF"[(g_sb[i].bits >> 4) & 15]); txt_put(t, "0123456789ABCDEF"[g_sb[i].bits & 15]); }
+        else t->bad = 1; } }
+static void mangle(Txt* t, const char* name) { StringBuilder sb; bool ok; g_sb_n = 0; ok = wasmCWriteStringEscaped(&sb, name); ASSUME(ok && !g_sb_overflow); txt_events(t, 0); }
+static int txt_eq(const Txt* a, const Txt* b) { int i; if (a->n != b->n) return 0; for (i = 0; i < TXT_MAX; i++) if (i < a->n && a->c[i] != b->c[i]) return 0; return 1; }
+#ifndef ILEN
+#define ILEN 2
+#endif
+static void mk_name(char* d, unsigned* len) { ND_ARR(char, ch, ILEN); ND(unsigned, n); unsigned i; ASSUME(n <= ILEN); for (i = 0; i < ILEN; i++) { if (i < n) ASSUME(ch[i] != 0); d[i] = i < n ? ch[i] : 0; } d[ILEN] = 0; *len = n; }
+static int same_name(const char* a, const char* b) { unsigned i; for (i = 0; i <= ILEN; i++) if (a[i] != b[i]) return 0; return 1; }
+void h_injective(void) { char a[ILEN + 1], b[ILEN + 1]; unsigned la, lb; Txt ta, tb;
+    mk_name(a, &la); mk_name(b, &lb); ASSUME(!same_name(a, b));
+    ta.n = 0; ta.bad = 0; tb.n = 0; tb.bad = 0; mangle(&ta, a); mangle(&tb, b);
+    OBL(!ta.bad && !tb.bad, "mangling: output bounded");
+    OBL(!txt_eq(&ta, &tb), "mangling: two different names never become the same identifier text (every byte value; the escape letter itself is escaped)");
+    CANARY("injective"); }
+/* import symbol = mangle(module) "__" mangle(name).  PAIR_CLASS 0: no module ends in '_' and no name starts with '_' ; 1: the complement */
+#ifndef PAIR_CLASS
+#define PAIR_CLASS 0
+#endif
+void h_injective_pair(void) { char m1[ILEN + 1], n1[ILEN + 1], m2[ILEN + 1], n2[ILEN + 1]; unsigned lm1, ln1, lm2, ln2; Txt t1, t2; int edge;
+    mk_name(m1, &lm1); mk_name(n1, &ln1); mk_name(m2, &lm2); mk_name(n2, &ln2);
+    ASSUME(!(same_name(m1, m2) && same_name(n1, n2)));
+    edge = (lm1 > 0 && m1[lm1 - 1] == '_') || (lm2 > 0 && m2[lm2 - 1] == '_') || n1[0] == '_' || n2[0] == '_' || lm1 == 0 || lm2 == 0 || ln1 == 0 || ln2 == 0;
+    ASSUME(PAIR_CLASS ? edge : !edge);
+    t1.n = 0; t1.bad = 0; t2.n = 0; t2.bad = 0;
+    mangle(&t1, m1); txt_put(&t1, '_'); txt_put(&t1, '_'); mangle(&t1, n1);
+    mangle(&t2, m2); txt_put(&t2, '_'); txt_put(&t2, '_'); mangle(&t2, n2);
+    OBL(!t1.bad && !t2.bad, "import symbols: output bounded");
+    OBL(!txt_eq(&t1, &t2), "import symbols: two different (module, name) pairs never share one C symbol");
+    CANARY("injective_pair"); }
